@@ -633,7 +633,7 @@ structure ValidPseudo (o : Opts) (r : PReq) (c : H2Ctx) : Prop where
   notConnect : r.method ≠ ofString "CONNECT"
   scheme : c.scheme = true
   targetSlash : r.target.head? = some slash
-  targetOk : (if o.headerStrict then (if o.ctrlsReject then false else r.target.any uriCharInvalidStrict)
+  targetOk : (if o.headerStrict then (if o.ctrlsReject then fragmentInvalidStrict r.target else r.target.any uriCharInvalidStrict)
               else r.target.any (fun b => b = 0 || b = cr || b = lf)) = false
 
 theorem validatePseudo_ok (o : Opts) (r : PReq) (c : H2Ctx) (h : ValidPseudo o r c) :
@@ -845,7 +845,7 @@ theorem applyFields_host (o : Opts) (m t a : Bytes) (fs : List (Bytes × Bytes))
 theorem h2Fields_spec (o : Opts) (mf : Nat) (m t a : Bytes) (fs : List (Bytes × Bytes))
     (hm : methodTable.contains m = true) (hmne : m ≠ []) (hnc : m ≠ ofString "CONNECT")
     (htsl : t.head? = some slash)
-    (htok : (if o.headerStrict then (if o.ctrlsReject then false else t.any uriCharInvalidStrict)
+    (htok : (if o.headerStrict then (if o.ctrlsReject then fragmentInvalidStrict t else t.any uriCharInvalidStrict)
              else t.any (fun b => b = 0 || b = cr || b = lf)) = false)
     (hane : a ≠ []) (halen : a.length < 1024) (haval : a.any lineCharInvalidStrict = false)
     (hpl : ∀ kv ∈ fs, PlainField o kv) (hsz : fieldsSize (pseudoFields m t a) + fieldsSize fs ≤ mf) :
@@ -980,7 +980,7 @@ def parseSemH2 (o : Opts) (mf : Nat) (m t a : Bytes) (fs : List (Bytes × Bytes)
 theorem parseSem_same (o : Opts) (mf : Nat) (m t a : Bytes) (fs : List (Bytes × Bytes))
     (hm : methodTable.contains m = true) (hmne : m ≠ []) (hnc : m ≠ ofString "CONNECT")
     (hnp : m ≠ ofString "POST") (htsl : t.head? = some slash)
-    (htok : (if o.headerStrict then (if o.ctrlsReject then false else t.any uriCharInvalidStrict)
+    (htok : (if o.headerStrict then (if o.ctrlsReject then fragmentInvalidStrict t else t.any uriCharInvalidStrict)
              else t.any (fun b => b = 0 || b = cr || b = lf)) = false)
     (hane : a ≠ []) (halen : a.length < 1024) (haval : a.any lineCharInvalidStrict = false)
     (hpl : ∀ kv ∈ fs, PlainField o kv) (hsz : fieldsSize (pseudoFields m t a) + fieldsSize fs ≤ mf)
